@@ -337,7 +337,7 @@ class WCS(object):
         """
 
         # Only do this if there is distortion
-        if find and self.distort["name"] != "none":
+        if find and distort and self.distort["name"] != "none":
             x, y = self._findxy(longitude, latitude, xtol=xtol)
         else:
             u, v = self.sph2image(longitude, latitude)
